@@ -198,9 +198,11 @@ claim("C13",
 claim("C17",
       "comparison of the two regular expressions as syntax trees (character classes must be ASCII complements), structural "
       "rules on renaming and place prefixes, provenance of explicit symbolic contexts",
-      "Decides only the clause 'name sanitization produces distinct, solver-safe names' and two structural preconditions: "
-      "index hygiene (a Petri net is never built with a symbolic context of a differently ordered network object) and "
-      "'decisions go through BDDs, not syntax' (no inspection of the syntax tree of an update function anywhere).",
+      "Decides only the clause 'name sanitization produces distinct, solver-safe names' and structural preconditions: "
+      "index hygiene (a Petri net is never built with a symbolic context of a differently ordered network object; the keys "
+      "of a diagram's node index are only ever used with the network they were computed for, never looked up in another "
+      "diagram's index) and 'decisions go through BDDs, not syntax' (no inspection of the syntax tree of an update function "
+      "anywhere).",
       "Isomorphism of diagrams under renaming, reordering, re-encoding or other file formats compares run-time results of "
       "transformed inputs and is NOT decided by this check.",
       "DESIGN.md §3 C17")
